@@ -2,5 +2,5 @@
    unit, list, prod, sumbool, sumor map to OCaml's; N/positive/nat stay the
    extracted inductives.  No Extract Constant. *)
 From Coq Require Import ExtrOcamlBasic.
-From DG Require Import Base.Util Base.Sexp Model.Graph Model.Walk Model.RunC15 Model.RunC02 Model.RunC14.
-Extraction "model.ml" run_c15 run_c02 run_c14.
+From DG Require Import Base.Util Base.Sexp Model.Graph Model.Walk Model.RunC15 Model.RunC02 Model.RunC14 Model.Packages Model.RunC07.
+Extraction "model.ml" run_c15 run_c02 run_c14 run_c07.
